@@ -188,6 +188,9 @@ func checkC14(c *Ctx) error {
 		if it.Migrated2 != it.Migrated {
 			finds = append(finds, "second run differs")
 		}
+		if it.ThirdRun && it.Migrated3 != it.Migrated {
+			finds = append(finds, "run over a longer stale output file differs")
+		}
 		if formatted, err := format.Source([]byte(it.Migrated)); err != nil || string(formatted) != it.Migrated {
 			finds = append(finds, "not gofmt-stable")
 		}
@@ -208,7 +211,7 @@ func checkC14(c *Ctx) error {
 		}
 		if len(finds) > 0 {
 			report(map[string]string{"kind": "gate-output-malformed", "how": classify(finds[0])},
-				map[string]any{"config": cfg.Desc, "findings": finds, "files": cfg.Files, "migrated": it.Migrated}, "C14-gate-"+cfg.Name)
+				map[string]any{"config": cfg.Desc, "findings": finds, "files": cfg.Files, "migrated": it.Migrated, "migrated_over_stale_file": it.Migrated3, "second_run": it.Migrated2}, "C14-gate-"+cfg.Name)
 		}
 	}
 	engineCoverage(c, k.E, "")
